@@ -46,7 +46,7 @@ def correspond_runs(ctx, cases, label):
                 cmds.append(rl.model_sock_cmd(c["model_events"], c["pf"], c["qe"], c["parsing"], obs["table"]))
             else:
                 obs = rl.run_reader(c["stream"], c["pf"], c["qe"], c["parsing"], c.get("validate", 1),
-                                    c.get("msgmode", 0), c.get("handler", True))
+                                    c.get("msgmode", 0), c.get("handler", True), bf=c.get("bf", True))
                 cmds.append(rl.model_cmd(c["stream"], c["pf"], c["qe"], c["parsing"], obs["table"]))
             obs_list.append(obs)
     finally:
@@ -107,7 +107,7 @@ def kind_proto(kind):
     return 2 if kind.startswith("ubx") else 1 if kind.startswith("nmea") else 4 if kind.startswith("rtcm") else 0
 
 
-def expected_clean(parts, pf, parsing, validate=1, msgmode=0):
+def expected_clean(parts, pf, parsing, validate=1, msgmode=0, bf=True):
     """The abstract reader of C06 on a clean chunk list."""
     exp = []
     for kind, raw in parts:
@@ -118,7 +118,7 @@ def expected_clean(parts, pf, parsing, validate=1, msgmode=0):
             exp.append((raw, None))
             continue
         try:
-            m = direct_parse(p, raw, validate, msgmode)
+            m = direct_parse(p, raw, validate, msgmode, bf)
         except PROT_ERRS:
             continue
         exp.append((raw, None if m is None else (type(m).__name__, show(m))))
